@@ -67,24 +67,33 @@ def _optstr(o):
     return ",".join(f"{k}={v}" for k, v in sorted(o.items())) or "default"
 
 
+def symbolic_kernel(it, kind, dim, op, opts):
+    """run the real factory and the kernel it returns on a symbolic grid / arrays; returns (grid, arr, out)"""
+    num_axes = dim if kind == "cartesian" else S.grid_layout(kind)[0]
+    ncomp = dim if kind == "cartesian" else S.grid_layout(kind)[1]
+    it.overrides["config"] = dict(CONFIG_DEFAULTS)
+    g = SymGrid(kind, num_axes)
+    for f in g.facts:
+        it.ctx.assume(f)
+    factory = it.get_function(OP_MODULE[kind], f"make_{op}")
+    backend = make_backend_stub()
+    it.stub_names["get_backend"] = lambda *a, **k: backend
+    kernel = it.call(factory, [g.instance()], dict(opts, backend=backend))
+    r_in, r_out = RANKS[op]
+    arr = sym_array("arr", (ncomp,) * r_in + tuple(n + 2 for n in g.N))
+    out = sym_array("out", (ncomp,) * r_out + tuple(g.N))
+    it.call(kernel, [arr, out], {})
+    return g, arr, out
+
+
 def kernel_unit(kind, dim, op, opts):
     num_axes = dim if kind == "cartesian" else S.grid_layout(kind)[0]
     ncomp = dim if kind == "cartesian" else S.grid_layout(kind)[1]
 
     def unit(U):
         it = U.interp()
-        it.overrides["config"] = dict(CONFIG_DEFAULTS)
-        g = SymGrid(kind, num_axes)
-        for f in g.facts:
-            it.ctx.assume(f)
-        factory = it.get_function(OP_MODULE[kind], f"make_{op}")
-        backend = make_backend_stub()
-        it.stub_names["get_backend"] = lambda *a, **k: backend
-        kernel = it.call(factory, [g.instance()], dict(opts, backend=backend))
+        g, arr, out = symbolic_kernel(it, kind, dim, op, opts)
         r_in, r_out = RANKS[op]
-        arr = sym_array("arr", (ncomp,) * r_in + tuple(n + 2 for n in g.N))
-        out = sym_array("out", (ncomp,) * r_out + tuple(g.N))
-        it.call(kernel, [arr, out], {})
         U.absorb(it)
         # ---- postcondition at an arbitrary valid cell
         idx = [z3.Int(f"i{a}") for a in range(num_axes)]
@@ -312,6 +321,115 @@ def replay(o):
     return {"reproduced": False, "engine_disagrees": False, "note": "native run matched the specification on 6 random grids"}
 
 
+def engine_crosscheck(tier, seed):
+    """validation of the trusted base (NOT a proof): for every kernel configuration the symbolic result of the
+    pdv interpreter, evaluated at a concrete random grid and array, is compared cell by cell with the output of
+    the same real factory run under CPython (numba JIT disabled) on the same inputs"""
+    import random
+    from fractions import Fraction as Q
+
+    from ..ctx import Ctx
+    from ..interp import Interp
+    from ..runner import native
+
+    rnd = random.Random(1000 + seed)
+    configs = []
+    for (kind, op), optlist in OPTIONS.items():
+        dims = (1, 2, 3) if kind == "cartesian" else (None,)
+        for dim in dims:
+            for opts in optlist:
+                if opts.get("safe"):
+                    continue  # `safe` adds symmetry asserts on the input (a precondition random arrays do not meet)
+                configs.append((kind, dim, op, opts))
+    if tier == "quick":
+        configs = rnd.sample(configs, 24)
+    cases, engine = [], {}
+    for n, (kind, dim, op, opts) in enumerate(configs):
+        it = Interp(Ctx())
+        try:
+            g, arr, out = symbolic_kernel(it, kind, dim, op, opts)
+        except Unsupported as e:
+            engine[n] = {"error": f"unsupported: {e}"}
+            continue
+        num_axes = g.num_axes
+        shape = [rnd.randint(1, 4) for _ in range(num_axes)]
+        h = [Q(rnd.randint(1, 9), rnd.randint(2, 7)) for _ in range(num_axes)]
+        lo = [Q(rnd.randint(-6, 6), 4) for _ in range(num_axes)]
+        if kind != "cartesian":
+            lo[0] = Q(rnd.randint(0, 6), 4) if rnd.random() < 0.6 else Q(0)
+        arr_shape = tuple(concrete_int(d, g, shape) for d in arr.shape)
+        out_shape = tuple(concrete_int(d, g, shape) for d in out.shape)
+        vals = {idx: Q(rnd.randint(-20, 20), rnd.randint(1, 8)) for idx in itertools.product(*[range(d) for d in arr_shape])}
+        s = z3.Solver()
+        for a in range(num_axes):
+            s.add(g.N[a] == shape[a], g.h[a] == to_z3(h[a]), g.lo[a] == to_z3(lo[a]))
+            for k in range(-2, shape[a] + 3):
+                s.add(g.coord(a, k) == to_z3(lo[a] + (Q(2 * k + 1, 2)) * h[a]))
+        arr_fn = z3.Function("arr", *([z3.IntSort()] * len(arr_shape)), z3.RealSort())
+        for idx, v in vals.items():
+            s.add(arr_fn(*idx) == to_z3(v))
+        for c in list(it.ctx.assumptions) + list(it.ctx.pc):
+            s.add(c)
+        if s.check() != z3.sat:
+            engine[n] = {"error": "concrete instance does not satisfy the kernel's preconditions"}
+            continue
+        m = s.model()
+        got = {}
+        try:
+            for idx in itertools.product(*[range(d) for d in out_shape]):
+                v = m.eval(to_z3(out.read(idx)), model_completion=True)
+                got[idx] = float(v.numerator_as_long()) / float(v.denominator_as_long()) if z3.is_rational_value(v) else None
+        except Exception as e:
+            engine[n] = {"error": f"{type(e).__name__}: {e}"}
+            continue
+        engine[n] = {"out": got, "out_shape": out_shape}
+        cases.append({"id": n, "kind": kind, "op": op, "opts": opts, "shape": shape, "lo": [float(x) for x in lo], "h": [float(x) for x in h],
+                      "arr": _nested(vals, arr_shape), "out_shape": list(out_shape)})
+    res = native("crosscheck.py", {"cases": cases}, timeout=3000, disable_jit=True)
+    if not res.get("ok"):
+        raise RuntimeError(f"native cross-check driver failed: {res}")
+    fails, compared = [], 0
+    nat = {r["id"]: r for r in res["results"]}
+    for n, (kind, dim, op, opts) in enumerate(configs):
+        e, r = engine.get(n), nat.get(n)
+        tag = f"{kind}{dim or ''}.{op}[{_optstr(opts)}]"
+        if e is None or "error" in e:
+            fails.append({"id": "engine_could_not_evaluate", "config": tag, "error": (e or {}).get("error")})
+            continue
+        if r is None or "error" in r:
+            fails.append({"id": "native_error", "config": tag, "error": (r or {}).get("error")})
+            continue
+        import math
+        for idx, v in e["out"].items():
+            w = r["out"]
+            for i in idx:
+                w = w[i]
+            compared += 1
+            if v is None or not math.isfinite(w) or abs(v - w) > 1e-9 * (1 + abs(w)):
+                fails.append({"id": "engine_and_cpython_disagree", "config": tag, "cell": list(idx), "engine": v, "cpython": w})
+                break
+    return {"name": "engine_crosscheck_vs_cpython", "bound": f"{len(configs)} kernel configurations, one random concrete grid and array each, every output cell ({compared} cells): symbolic result of the interpreter vs the real factory under CPython with numba JIT disabled",
+            "cases": len(configs), "failures": fails[:8]}
+
+
+def concrete_int(d, g, shape):
+    if isinstance(d, int):
+        return d
+    s = z3.Solver()
+    for a in range(g.num_axes):
+        s.add(g.N[a] == shape[a])
+    s.check()
+    return s.model().eval(to_z3(d), model_completion=True).as_long()
+
+
+def _nested(vals, shape):
+    def build(prefix, dims):
+        if not dims:
+            return float(vals[prefix])
+        return [build(prefix + (i,), dims[1:]) for i in range(dims[0])]
+    return build((), tuple(shape))
+
+
 def bounded(tier, seed):
     """bounded stand-in (NOT counted as proved): the real compiled operators, obtained through the public
     grid.make_operator_no_bc on the numba backend, against the same specification on random grids"""
@@ -325,10 +443,10 @@ def bounded(tier, seed):
                 if tier == "quick" and (opts.get("safe") is True or (kind == "cartesian" and dim == 3 and opts.get("method", "central") != "central")):
                     continue
                 configs.append(dict(kind=kind, dim=dim, op=op, opts=opts))
-    res = native("ops.py", {"configs": configs, "grids_per_config": 2 if tier == "quick" else 6, "seed": seed}, timeout=3000)
+    res = native("ops.py", {"configs": configs, "grids_per_config": 2 if tier == "quick" else 6, "seed": seed, "shifted_grids": True}, timeout=3000)
     if not res.get("ok"):
         raise RuntimeError(f"native driver failed: {res}")
-    return [{"name": "numba_operators_vs_spec", "bound": f"{len(configs)} configurations x {2 if tier == 'quick' else 6} random grids (<=5 cells per axis), one random field each",
+    return [engine_crosscheck(tier, seed), {"name": "numba_operators_vs_spec", "bound": f"{len(configs)} configurations x {2 if tier == 'quick' else 6} random grids (<=5 cells per axis), one random field each; grid.make_operator with BCs on pairs of curvilinear grids that differ only by a shift of their bounds",
              "cases": res["cases"], "failures": res["failures"]}]
 
 
